@@ -60,7 +60,13 @@ class Standardiser(PoolDecorator):
         supply = self.target.supply
         by_supply = _clamp(supply - self.backlog, value, supply + self.surplus)
         by_limits = _clamp(self.minimum, by_supply, self.maximum)
-        return type(value)(by_limits)
+        # preserve the type of ``value`` unless this would change the limited value,
+        # e.g. for an ``int`` clamped to a fractional or infinite limit
+        try:
+            converted = type(value)(by_limits)
+        except (OverflowError, ValueError):
+            return by_limits
+        return converted if converted == by_limits else by_limits
 
     def __init__(
         self,
